@@ -1,4 +1,5 @@
 import PikaVerif.Lemmas.CVAbort
+import PikaVerif.Lemmas.CVAbort2
 import PikaVerif.Lemmas.CV6
 import PikaVerif.Props.C07
 /-!
@@ -333,6 +334,125 @@ theorem C07d_abort_popped_is_aborted (s s' : St) (a g : Nat) (e : Ev)
              | (left; rfl)
              | (subst_vars; simp_all; done)
              | (rcases hp with hp | hp <;> simp_all <;> done))
+
+/-! ## Progress -/
+
+/-- `Stuck s`: the model accepts no event inside an operation (only invocations / thread ends). -/
+def Stuck (s : St) : Prop := ∀ e, (step s e).isSome = true → inner e = false
+
+/-- **Progress.**  A reachable state in which the model accepts nothing but the start of a new operation (or
+    the end of a thread) has every thread idle, finished, or parked in an untimed wait with its entry linked
+    in `queue_`, un-popped, without a wake-up token — a waiter nobody has notified or aborted.  In
+    particular: no `abort_all` is in flight (it never blocks for good: every one of its states has an enabled
+    step or waits for a lock whose holder has one), the local list is empty, and no popped waiter remains
+    parked (its `ctx.abort()` / `ctx.resume()` was issued and its wake-up token exists). -/
+theorem C07d_abort_stuck_only_when_blocked (s : St) (hr : ReachableA s) (hs : Stuck s) :
+    s.ab = none ∧ s.lq = [] ∧ s.lock = none ∧
+    ∀ t, s.pc t = .idle ∨ s.pc t = .fin ∨ (s.pc t = .susp false ∧ s.tok t = 0 ∧ t ∈ s.queue) := by
+  have hi := hr.inv
+  have en : ∀ e, (step s e).isSome = true → inner e = true → False := by
+    intro e h1 h2; have := hs e h1; rw [h2] at this; simp at this
+  have hlock : s.lock = none := by
+    cases hl : s.lock with
+    | none => rfl
+    | some r => obtain ⟨e, h1, h2⟩ := en_of_holds s hi r hl; exact (en e h1 h2).elim
+  have wantLock : ∀ t, (step s (.slAcq t)).isSome = true → False := fun t h => en _ h rfl
+  have hall : ∀ t, s.pc t = .idle ∨ s.pc t = .fin ∨ (s.pc t = .susp false ∧ s.tok t = 0 ∧ t ∈ s.queue) := by
+    intro t
+    cases hp : s.pc t
+    case idle => exact Or.inl rfl
+    case fin => exact Or.inr (Or.inl rfl)
+    case wWant tm => exact (wantLock t (by simp [step, hlock, hp])).elim
+    case wokeNL tm p => exact (wantLock t (by simp [step, hlock, hp])).elim
+    case thrNL p => exact (wantLock t (by simp [step, hlock, hp])).elim
+    case nWant a => exact (wantLock t (by simp [step, hlock, hp])).elim
+    case aWant => exact (wantLock t (by simp [step, hlock, hp])).elim
+    case aRelk => exact (wantLock t (by simp [step, hlock, hp])).elim
+    case unl tm p =>
+      cases tm with
+      | false => exact (en (.suspend t) (by simp [step, hp]) rfl).elim
+      | true => exact (en (.sleep t) (by simp [step, hp]) rfl).elim
+    case slp p => exact (en (.timeout t) (by simp [step, hp]) rfl).elim
+    case retn r => exact (en (.ret t r) (by simp [step, hp]) rfl).elim
+    case nRet => exact (en (.ret t 0) (by simp [step, hp]) rfl).elim
+    case aRet => exact (en (.ret t 0) (by simp [step, hp]) rfl).elim
+    case aUnl g => exact (en (.abort t g (isSlp (s.pc g))) (by simp [step, hp]) rfl).elim
+    case susp p =>
+      by_cases htok : 0 < s.tok t
+      · exact (en (.woke t (s.abt t)) (by simp [step, hp, htok]) rfl).elim
+      · have h0 : s.tok t = 0 := by omega
+        cases p with
+        | false =>
+          refine Or.inr (Or.inr ⟨rfl, h0, ?_⟩)
+          have hq := (hi.qIff t).2 (by simp [hp, inQ])
+          rcases hq with hq | hq
+          · exact hq
+          · -- the local list is non-empty only while an abort_all is in flight, which always has a step
+            exfalso
+            cases hab : s.ab with
+            | none => have := hi.lqNone hab; rw [this] at hq; simp at hq
+            | some a =>
+              have hia := hi.abConv a hab
+              cases hpa : s.pc a <;> simp [hpa, inAb] at hia
+              case aWant => exact wantLock a (by simp [step, hlock, hpa])
+              case aRelk => exact wantLock a (by simp [step, hlock, hpa])
+              case aLoop => have := hi.lockHolder a (by simp [hpa, holds]); rw [hlock] at this; simp at this
+              case aPopped g => have := hi.lockHolder a (by simp [hpa, holds]); rw [hlock] at this; simp at this
+              case aDone => have := hi.lockHolder a (by simp [hpa, holds]); rw [hlock] at this; simp at this
+              case aUnl g => exact en (.abort a g (isSlp (s.pc g))) (by simp [step, hpa]) rfl
+              case aRet => exact en (.ret a 0) (by simp [step, hpa]) rfl
+        | true =>
+          exfalso
+          have hw := hi.wake t (by simp [hp, needTok])
+          rcases hw with hw | hw
+          · omega
+          · obtain ⟨a, _, hpa⟩ := (C07d_one_resume_per_enqueue s hr t).2.2.2 hw
+            rcases hpa with hpa | hpa
+            · have := hi.lockHolder a (by simp [hpa, holds]); rw [hlock] at this; simp at this
+            · exact en (.abort a t (isSlp (s.pc t))) (by simp [step, hpa]) rfl
+    all_goals (have := hi.lockHolder t (by simp [hp, holds]); rw [hlock] at this; simp at this)
+  have hab : s.ab = none := by
+    cases hab : s.ab with
+    | none => rfl
+    | some a =>
+      have hia := hi.abConv a hab
+      rcases hall a with h | h | h
+      · simp [h, inAb] at hia
+      · simp [h, inAb] at hia
+      · simp [h.1, inAb] at hia
+  exact ⟨hab, hi.lqNone hab, hlock, hall⟩
+
+
+/-- The hypothesis is satisfiable: the initial state is stuck, and so is the state in which one waiter is
+    parked and nobody notifies or aborts it. -/
+example : Stuck (init 1) := by
+  intro e h; cases e <;> simp [step, init] at h <;> rfl
+
+/-! ## Finding: `ctx.abort()` is issued after the lock was released
+
+`abort_all` releases the internal lock before `ctx.abort()` ("unlock while notifying thread as this can
+suspend"), whereas `notify_one` / `notify_all` call `ctx.resume()` with the lock held.  A popped waiter needs
+that lock to leave `wait`; with the lock free it can leave — after its deadline, after a left-over wake-up —
+before the abort arrives.  The statement one would like,
+
+  `step s (.abort a g d) = some s' → g is still inside the wait whose entry a popped`,
+
+is FALSE of the code as it is; the witness below is accepted by the model and reproduced on the real code
+(`findings/C07d-abort-after-wait-returned.json`): a timed waiter is popped by `abort_all`, its deadline
+expires while the aborter is between the unlock and `ctx.abort()`, it finds its entry popped, returns
+`signaled` (no exception), and finishes; then the abort is delivered to the agent of a thread that is not
+waiting on this condition variable any more (in C++: a dangling `agent_ref` if the thread has exited, a stale
+abort that makes the thread's next, unrelated suspension throw otherwise). -/
+def lateAbortLog : List Ev :=
+  [.inv 0 (.wait true), .slAcq 0, .cvEnq 0 1 true, .slRel 0, .sleep 0,
+   .inv 1 .abort, .slAcq 1, .abSwap 1 1, .abPop 1 0 0, .slRel 1,
+   .timeout 0, .slAcq 0, .cvWoke 0 false true, .slRel 0, .ret 0 0, .done 0]
+
+theorem C07d_abort_can_land_after_wait_returned :
+    ((runLog step (init 2) lateAbortLog).map
+        (fun s => decide (s.pc 0 = .fin ∧ s.pc 1 = .aUnl 0))) = some true ∧
+    ((runLog step (init 2) (lateAbortLog ++ [.abort 1 0 false])).map
+        (fun s => s.abt 0 && decide (s.tok 0 = 1 ∧ s.pc 0 = .fin))) = some true := by decide
 
 /-! ## Non-vacuity (part A) -/
 
